@@ -5,6 +5,8 @@ package checks
 import (
 	"fmt"
 	"os"
+	"path/filepath"
+	"sync"
 	"testing"
 
 	"github.com/RoaringBitmap/roaring/v2"
@@ -24,10 +26,12 @@ var engineOps = []string{"IndexFactory", "SetDirectMap", "Train", "AddWithIDs", 
 
 type engineFaultCase struct {
 	Plan *spec.MergePlan `json:"plan"` // root inner node = merge scenario; a leaf plan = build scenario
+	// Reserved: the merge destination already exists as an empty file (name reserved by the caller)
+	Reserved bool `json:"reserved,omitempty"`
 }
 
 var engineFaultStats struct {
-	faulted, afterFirstIndex, buildFaults, mergeFaults int64
+	faulted, afterFirstIndex, buildFaults, mergeFaults, withCancel int64
 }
 
 func genEngineFaultCase(t *rapid.T) engineFaultCase {
@@ -75,7 +79,7 @@ func genEngineFaultCase(t *rapid.T) engineFaultCase {
 		})
 		return engineFaultCase{Plan: &spec.MergePlan{Leaf: leaf.Leaf, ChunkMode: leaf.ChunkMode}}
 	}
-	return engineFaultCase{Plan: pc.Plan}
+	return engineFaultCase{Plan: pc.Plan, Reserved: gen.Chance(t, "reserved", 35)}
 }
 
 func runEngineFaultCase(c engineFaultCase) *Violation {
@@ -161,61 +165,92 @@ func runEngineFaultCase(c engineFaultCase) *Violation {
 	}
 	for _, op := range engineOps {
 		for n := int64(1); n <= counts[op]; n++ {
-			fakeReset()
-			base = fakeLive()
-			faiss.VerifFailNth(op, int(n))
-			engineFaultStats.faulted++
-			engineFaultStats.mergeFaults++
-			if !(op == "ReadIndexFromBuffer" && n == 1) {
-				engineFaultStats.afterFirstIndex++
-			}
-			p2 := drive.NewPath("c19f")
-			err := drive.Safe(func() error {
-				_, _, e := drive.Merge(segs, drops, p2, root.ChunkMode, nil, nil)
-				return e
-			})
-			faiss.VerifFailNth(op, 0)
-			desc := fmt.Sprintf("merge with call %d of engine operation %s failing", n, op)
-			_, serr := os.Stat(p2)
-			if err == nil {
-				// success claimed: the file must hold every surviving vector
-				var v *Violation
-				o, oerr := drive.Open(p2)
-				if oerr != nil {
-					v = violation(prop, "merge/fault-swallowed", "%s: the merge returned no error but its file does not open: %v", desc, oerr)
-				} else {
-					v = vectorSegmentCheck(prop, o, want, desc)
-					if v == nil {
-						// a segment reported as complete must also be usable as a merge
-						// input again (its vectors must be reconstructable)
-						p3 := drive.NewPath("c19r")
-						_, _, rerr := drive.Merge([]segment.Segment{o}, []*roaring.Bitmap{nil}, p3, root.ChunkMode, nil, nil)
-						if rerr != nil {
-							v = violation(prop, "merge/fault-swallowed", "%s: the merge returned no error, yet its output cannot be merged again: %v", desc, rerr)
-						} else if o3, oerr := drive.Open(p3); oerr != nil {
-							v = violation(prop, "merge/fault-swallowed", "%s: re-merged output does not open: %v", desc, oerr)
-						} else {
-							v = vectorSegmentCheck(prop, o3, want, desc+" (re-merged)")
-							o3.Close()
+			for _, cancelToo := range []bool{false, true} {
+				fakeReset()
+				base = fakeLive()
+				faiss.VerifFailNth(op, int(n))
+				engineFaultStats.faulted++
+				engineFaultStats.mergeFaults++
+				if !(op == "ReadIndexFromBuffer" && n == 1) {
+					engineFaultStats.afterFirstIndex++
+				}
+				dir := drive.NewDir("c19f")
+				p2 := filepath.Join(dir, "merged.zap")
+				if c.Reserved {
+					if f, err := os.OpenFile(p2, os.O_CREATE|os.O_WRONLY, 0o600); err == nil {
+						f.Close()
+					}
+				}
+				// cancelToo: the merge is also cancelled, at the very moment the failing call is entered
+				var closeCh chan struct{}
+				if cancelToo {
+					closeCh = make(chan struct{})
+					var seen int64
+					var once sync.Once
+					theOp, theN := op, n
+					fakeOnOp(func(name string) {
+						if name == theOp {
+							seen++
+							if seen == theN {
+								once.Do(func() { close(closeCh) })
+							}
 						}
-						os.Remove(p3)
-					}
-					o.Close()
-					if v != nil && v.Signature != "merge/fault-swallowed" {
-						v.Signature = "merge/fault-swallowed"
-						v.Message = desc + ": the merge returned no error, yet: " + v.Message
-					}
+					})
+					engineFaultStats.withCancel++
 				}
-				os.Remove(p2)
-				if v != nil {
-					return v
+				err := drive.Safe(func() error {
+					_, _, e := drive.Merge(segs, drops, p2, root.ChunkMode, closeCh, nil)
+					return e
+				})
+				fakeOnOp(nil)
+				faiss.VerifFailNth(op, 0)
+				desc := fmt.Sprintf("merge with call %d of engine operation %s failing", n, op)
+				if cancelToo {
+					desc += " and the close channel closed when that call is entered"
 				}
-			} else if serr == nil {
-				os.Remove(p2)
-				return violation(prop, "merge/file-left-behind", "%s: the merge failed (%v) but left a file at the path", desc, err)
-			}
-			if !waitLive(base) {
-				return violation(prop, "merge/index-leak", "%s: %d native indexes created on the way are still alive", desc, fakeLive()-base)
+				_, serr := os.Stat(p2)
+				left := drive.ListDir(dir)
+				defer os.RemoveAll(dir)
+				if err == nil {
+					// success claimed: the file must hold every surviving vector
+					var v *Violation
+					o, oerr := drive.Open(p2)
+					if oerr != nil {
+						v = violation(prop, "merge/fault-swallowed", "%s: the merge returned no error but its file does not open: %v", desc, oerr)
+					} else {
+						v = vectorSegmentCheck(prop, o, want, desc)
+						if v == nil {
+							// a segment reported as complete must also be usable as a merge
+							// input again (its vectors must be reconstructable)
+							p3 := drive.NewPath("c19r")
+							_, _, rerr := drive.Merge([]segment.Segment{o}, []*roaring.Bitmap{nil}, p3, root.ChunkMode, nil, nil)
+							if rerr != nil {
+								v = violation(prop, "merge/fault-swallowed", "%s: the merge returned no error, yet its output cannot be merged again: %v", desc, rerr)
+							} else if o3, oerr := drive.Open(p3); oerr != nil {
+								v = violation(prop, "merge/fault-swallowed", "%s: re-merged output does not open: %v", desc, oerr)
+							} else {
+								v = vectorSegmentCheck(prop, o3, want, desc+" (re-merged)")
+								o3.Close()
+							}
+							os.Remove(p3)
+						}
+						o.Close()
+						if v != nil && v.Signature != "merge/fault-swallowed" {
+							v.Signature = "merge/fault-swallowed"
+							v.Message = desc + ": the merge returned no error, yet: " + v.Message
+						}
+					}
+					os.Remove(p2)
+					if v != nil {
+						return v
+					}
+				} else if serr == nil || len(left) != 0 {
+					os.Remove(p2)
+					return violation(prop, "merge/file-left-behind", "%s: the merge failed (%v) but left %q in the destination directory", desc, err, left)
+				}
+				if !waitLive(base) {
+					return violation(prop, "merge/index-leak", "%s: %d native indexes created on the way are still alive", desc, fakeLive()-base)
+				}
 			}
 		}
 	}
@@ -242,7 +277,7 @@ var c19 = Check[engineFaultCase]{
 	},
 	Extra: func() map[string]any {
 		return map[string]any{"faulted_operations": engineFaultStats.faulted, "faults_after_first_index": engineFaultStats.afterFirstIndex,
-			"build_faults": engineFaultStats.buildFaults, "merge_faults": engineFaultStats.mergeFaults}
+			"build_faults": engineFaultStats.buildFaults, "merge_faults": engineFaultStats.mergeFaults, "merge_faults_combined_with_cancellation": engineFaultStats.withCancel}
 	},
 }
 
